@@ -16,8 +16,13 @@ Definition unsrc_f (f : frame) : frame := mkf (fname f) (fattrs f) nosrc (map un
 Definition unsrc_s (s : tb) : tb :=
   mktb (tphase s) (map unsrc_f (topen s)) (tnss s) (tcur s) (map unsrc_b (tdoc s)) (map unsrc_b (tpost s))
        (terrs s) (tpanic s).
+(* ... nor does it tell an absent doctype name or identifier from an empty one *)
 Definition unsrc_tok (t : token) : token :=
-  match t with TTag k name attrs _ => TTag k name attrs nosrc | x => x end.
+  match t with
+  | TTag k name attrs _ => TTag k name attrs nosrc
+  | TDoctype n p s => TDoctype (Some (ostr n)) (Some (ostr p)) (Some (ostr s))
+  | x => x
+  end.
 
 Lemma erase_unsrc : forall n, erase (unsrc_b n) = erase n.
 Proof.
